@@ -176,8 +176,7 @@ def r4_cutoff(ctx, rid):
     if stores:
         ctx.violation(rid, f, stmt_of(ctx.cfg(f), stores[0]), "cutoff is re-bound before it is applied")
     if not uses:
-        ctx.violation(rid, f, f.node, "cutoff is never applied", label="cutoff unused")
-        return
+        ctx.violation(rid, f, f.node, "cutoff is never applied: rows with time < cutoff are returned", label="cutoff unused")
     frame_names = set()
     for n in walk_shallow(f.node):
         if isinstance(n, ast.Assign) and isinstance(n.value, ast.Call) and call_name(n.value) == "DataFrame":
